@@ -4,7 +4,7 @@ func init() {
 	harnesses = append(harnesses, &Harness{Name: "balance", Pkg: "services/keep-balance",
 		Instr: []InstrSpec{{Pkg: "services/keep-balance", Files: []string{"balance.go"}, Rules: "R4"}}})
 	props = append(props, &Prop{ID: "C05", Harness: "balance", Level: "exploration",
-		QuickRuns: 6000, QuickChunk: 100, QuickWallS: 60, ThoroughRuns: 600000, ThoroughChunk: 500, ThoroughWallS: 600,
+		QuickRuns: 4000, QuickChunk: 100, QuickWallS: 40, ThoroughRuns: 600000, ThoroughChunk: 500, ThoroughWallS: 600,
 		Rule:         "C05: per run a cluster layout is drawn (1-16 keepstore services x 1-3 mounts, mostly <= 4x2; read-only flags on mounts and services; devices with blank, unique or shared DeviceID, replication 1-3 and storage classes; 1-12 blocks on any subset of devices with mtimes old / new / colliding / straddling the signature TTL; 0-6 collections with replication_desired null or 0-4 and storage classes); ONE real Balancer.Run sweeps it over the simulated transport; every trash list received is then executed on the physical device table under keepstore's rules while pulls fail (or a seeded subset succeeds).",
 		Real:         []string{"services/keep-balance: Balancer.Run end to end (DiscoverKeepServices, discoverMounts, cleanupMounts, CheckSanityEarly/Late, ClearTrashLists, GetCurrentState, ComputeChangeSets/balanceBlock, CommitPulls, CommitTrash), EachCollection, ChangeSet JSON", "sdk/go/arvados: Client, KeepService.Mounts/IndexMount (index parser), EachKeepService", "sdk/go/keepclient: RootSorter"},
 		Stub:         []string{"Arvados API model (keep_services, users/current, discovery document, collections list with filters/order/limit/count/select/include_trash/include_old_versions)", "keepstore models owning a physical device table (mounts, per-mount index, trash and pull list receivers, trash execution under keepstore's mtime/TTL/read-only rules)"},
@@ -14,7 +14,7 @@ func init() {
 		Technique:    "deterministic simulation: real keep-balance sweep over a simulated transport against API and keepstore models; injected fault = all (or some) pulls fail; trash lists executed on a physical device model; invariant and request-legality oracles",
 		DesignRef:    "5.5"})
 	props = append(props, &Prop{ID: "C06", Harness: "balance", Level: "exploration",
-		QuickRuns: 9000, QuickChunk: 150, QuickWallS: 60, ThoroughRuns: 900000, ThoroughChunk: 750, ThoroughWallS: 600,
+		QuickRuns: 8000, QuickChunk: 150, QuickWallS: 40, ThoroughRuns: 900000, ThoroughChunk: 750, ThoroughWallS: 600,
 		Rule:         "C06: each run draws one of three parts. (a) the real EachCollection pages through an API model holding 0-200 collections with timestamp ties of drawn multiplicity, page size 1..N (client knob and/or server cap, optional short pages) while 0..k modify/add/delete mutations (fresh modified_at) are applied between any two requests; (b) a well-formed index of 0-65 entries cut at a drawn byte with four framings (Content-Length full + unexpected EOF, no length + EOF, chunked + unexpected EOF, short consistent length) is served to arvados.KeepService.IndexMount and keepclient.GetIndex; (c) a whole Balancer.Run in which the k-th request (k drawn) fails with 500/502/503, connection reset/refused or a truncated body.",
 		Real:         []string{"services/keep-balance: EachCollection, countCollections, Balancer.Run/GetCurrentState error paths", "sdk/go/arvados: Client.RequestAndDecode, KeepService.index", "sdk/go/keepclient: KeepClient.GetIndex"},
 		Stub:         []string{"Arvados API model (collections list as documented)", "keepstore models (index, trash, pull)", "simulated transport with truncation / status / connection faults"},
@@ -24,8 +24,8 @@ func init() {
 		Technique:    "deterministic simulation with fault injection: mutations between page requests, truncated/failed responses at drawn requests; completeness and abort oracles over the recorded wire history",
 		DesignRef:    "5.6"})
 	// C12B is the keep-balance clause of C12 (scenario only; folded into C12 by the keepclient side).
-	props = append(props, &Prop{ID: "C12B", Harness: "balance", Level: "exploration",
-		QuickRuns: 3000, QuickChunk: 100, QuickWallS: 45, ThoroughRuns: 200000, ThoroughChunk: 500, ThoroughWallS: 300,
+	props = append(props, &Prop{ID: "C12B", Harness: "balance", Level: "exploration", Sub: true,
+		QuickRuns: 2000, QuickChunk: 100, QuickWallS: 25, ThoroughRuns: 200000, ThoroughChunk: 500, ThoroughWallS: 300,
 		Rule:         "C12B: 1-32 services with 27-character and other uuids, one empty writable mount each, 1-6 blocks held by 1-3 servers, k=1-4 replicas wanted; one real sweep; pull targets compared with the reference rendezvous order.",
 		Real:         []string{"services/keep-balance Balancer.Run", "sdk/go/keepclient RootSorter"},
 		Stub:         []string{"API model", "keepstore models"},
